@@ -351,6 +351,19 @@ func runHostile(rc *core.RunCtx) {
 	legit := genOpsFrom(g, rc, 1, []int{2}, targets, 1, 6, false)
 	fin := runScripts(w, legit)
 
+	// in some runs node 2 is also busy dialing an address where nobody listens
+	// (retries and back-off for seconds): a stream writer that exists, is
+	// registered and can be named by the hostile peer, but has no stream yet
+	dialing := g.Bool(0.3)
+	if dialing {
+		simrt.GoNode(2, "send-to-dead-address", func() {
+			w.nodes[2].E.Send(actor.NewPID(addrOf(3), "rec/r0"), mkPayload(0, "nobody-home"))
+		})
+	}
+	infra := []string{"stream/" + addrOf(1), "eventstream/1", "monitor/m"}
+	if dialing {
+		infra = append(infra, "stream/"+addrOf(3), "stream/"+addrOf(3))
+	}
 	mode := g.IntN(3) // 0 structural, 1 byte mutation, 2 corrupting network on a legitimate stream
 	var sent []hostileMsg
 	bad := map[string]int32{"neg": -1, "len": 0, "max": 1<<31 - 1}
@@ -383,21 +396,21 @@ func runHostile(rc *core.RunCtx) {
 			hid := 0
 			for e := 0; e < nenv; e++ {
 				env := &hremote.Envelope{}
-				ntypes := simrt.G().Range(0, 2)
+				ntypes := simrt.G().Range(0, 3)
 				names := []string{"remote.TestMessage", "actor.PID", "no.such.Type", "evil/remote.TestMessage", "//actor.PID", "remote.TestMessage/", ""}
 				for i := 0; i < ntypes; i++ {
 					env.TypeNames = append(env.TypeNames, names[simrt.G().IntN(len(names))])
 				}
-				ntg := simrt.G().Range(0, 2)
+				ntg := simrt.G().Range(0, 3)
 				for i := 0; i < ntg; i++ {
 					tid := targets[i%2]
-					if simrt.G().Bool(0.15) {
+					if simrt.G().Bool(0.15) || (dialing && simrt.G().Bool(0.3)) {
 						// address one of the node's own infrastructure actors
-						tid = []string{"stream/" + addrOf(1), "eventstream/1", "monitor/m"}[simrt.G().IntN(3)]
+						tid = infra[simrt.G().IntN(len(infra))]
 					}
 					env.Targets = append(env.Targets, actor.NewPID(addrOf(2), tid))
 				}
-				nsn := simrt.G().Range(0, 2)
+				nsn := simrt.G().Range(0, 3) // 3: decoded tables whose capacity exceeds their length
 				for i := 0; i < nsn; i++ {
 					env.Senders = append(env.Senders, actor.NewPID("evil", fmt.Sprintf("s%d", i)))
 				}
